@@ -40,6 +40,7 @@ func init() {
 			"non-trivial = the fault fired; distinct = distinct (implementation, operation, faulted primitive and index, mode) tuples",
 		Run:         runC12,
 		Sweep:       sweepC12,
+		Recycle:     6000,
 		QuickSec:    12,
 		ThoroughSec: 300,
 		Assumptions: []string{
@@ -83,12 +84,12 @@ func (im secretImpl) regionFor(addr uintptr) *fakes.Region {
 }
 
 type trackedSecret struct {
-	sec     securememory.Secret
-	want    []byte // nil until first read for random secrets
-	addr    uintptr
-	closed  bool
-	inside  int
-	n       int
+	sec    securememory.Secret
+	want   []byte // nil until first read for random secrets
+	addr   uintptr
+	closed bool
+	inside int
+	n      int
 }
 
 func runC11(t *simrt.Tape, o Opts) Outcome {
@@ -508,8 +509,8 @@ func runC12(t *simrt.Tape, o Opts) Outcome {
 				if im.name == "memguard" {
 					// memguard releases inside its library: ask the kernel
 					pm := fakes.ProcFlags(r.Addr)
-					mapped = pm.Found && (pm.Perms == "---p" || pm.Perms == "r--p" || strings.Contains(pm.Flags, " lo ") || r.Mapped && pm.Perms == "rw-p")
-					locked = pm.Found && strings.Contains(pm.Flags, " lo ")
+					mapped = r.RealFreeErr != "" || (pm.Found && (pm.Perms == "---p" || pm.Perms == "r--p"))
+					locked = pm.Found && strings.Contains(pm.Flags, " lo ") && (pm.Perms == "---p" || pm.Perms == "r--p")
 				}
 				if mapped || locked {
 					violate("region-left-behind/"+im.name+"/"+c12Ops[op], "%s: after the failed %s a region is still mapped=%v locked=%v prot=%s", desc(), what, mapped, locked, r.Prot)
